@@ -5,6 +5,9 @@ import (
 	"encoding/json"
 	"fmt"
 	"math/rand"
+	"os"
+	"os/exec"
+	"path/filepath"
 	"strings"
 
 	"github.com/modernizing/coca/pkg/application/call"
@@ -42,6 +45,7 @@ type Api struct {
 }
 
 type Op struct {
+	// kind: call | rcall | api (in-process API)  —  clicall | clircall (the coca binary on a deps.json, one OS process per command)
 	Kind   string `json:"kind"`
 	Root   string `json:"root"`
 	Lookup bool   `json:"lookup"`
@@ -143,6 +147,8 @@ func runOp(in Input, op Op) Obs {
 			for _, c := range counts {
 				o.Sizes = append(o.Sizes, c.Size)
 			}
+		case "clicall", "clircall":
+			cli(in, op, clzs, &o)
 		default:
 			panic("harness: unknown op " + op.Kind)
 		}
@@ -153,6 +159,51 @@ func runOp(in Input, op Op) Obs {
 		o.Note = msg
 	}
 	return o
+}
+
+// cli runs `coca call` / `coca rcall` on the model written as deps.json, in a scratch working directory
+func cli(in Input, op Op, clzs []core_domain.CodeDataStruct, o *Obs) {
+	dir, err := os.MkdirTemp(os.Getenv("VERIF_SCRATCH"), "cg-")
+	if err != nil {
+		panic(err)
+	}
+	defer os.RemoveAll(dir)
+	b, _ := json.Marshal(clzs)
+	os.WriteFile(filepath.Join(dir, "deps.json"), b, 0o644)
+	args := []string{"call", "-c", op.Root, "-d", "deps.json"}
+	out := "call.dot"
+	if op.Kind == "clircall" {
+		args = []string{"rcall", "-c", op.Root, "-d", "deps.json"}
+		out = "rcall.dot"
+	} else if op.Lookup {
+		args = append(args, "-l")
+	}
+	cmd := exec.Command(os.Getenv("VERIF_COCA"), args...)
+	cmd.Dir = dir
+	cmd.Env = append(os.Environ(), "TMPDIR="+dir)
+	if outb, err := cmd.CombinedOutput(); err != nil {
+		panic(fmt.Sprintf("coca %v failed: %v %s", args, err, outb))
+	}
+	dot, err := os.ReadFile(filepath.Join(dir, "coca_reporter", out))
+	if err != nil {
+		panic("no " + out)
+	}
+	g := lib.ParseSimpleDot(string(dot))
+	o.Wellformed = g.Wellformed
+	o.Edges = g.Edges
+	if op.Kind == "clircall" {
+		mb, err := os.ReadFile(filepath.Join(dir, "coca_reporter", "rcallmap.json"))
+		if err != nil {
+			panic("no rcallmap.json")
+		}
+		m := map[string][]string{}
+		if err := json.Unmarshal(mb, &m); err != nil {
+			panic("rcallmap.json does not parse")
+		}
+		for k, v := range m {
+			o.Rmap[k] = append([]string{}, v...)
+		}
+	}
 }
 
 func one(raw json.RawMessage) interface{} {
@@ -348,9 +399,17 @@ func gen(seed int64, n int, tier string) []interface{} {
 		for j := 0; j < nops; j++ {
 			switch r.Intn(4) {
 			case 0, 1:
-				ops = append(ops, Op{Kind: "call", Root: pick(), Lookup: r.Intn(4) == 0, Apis: []Api{}})
+				kind := "call"
+				if r.Intn(6) == 0 {
+					kind = "clicall"
+				}
+				ops = append(ops, Op{Kind: kind, Root: pick(), Lookup: r.Intn(4) == 0, Apis: []Api{}})
 			case 2:
-				ops = append(ops, Op{Kind: "rcall", Root: pick(), Apis: []Api{}})
+				kind := "rcall"
+				if r.Intn(5) == 0 {
+					kind = "clircall"
+				}
+				ops = append(ops, Op{Kind: kind, Root: pick(), Apis: []Api{}})
 			default:
 				na := 1 + r.Intn(4)
 				op := Op{Kind: "api", Apis: []Api{}}
